@@ -113,11 +113,16 @@ class Pure:
 
     def callee_env(self, fn, call, env, binds):
         params = [a.arg for a in fn.args.args if a.arg != "self"]
-        if call.keywords or len(call.args) > len(params) or fn.args.vararg or fn.args.kwarg or fn.args.kwonlyargs:
+        if len(call.args) > len(params) or fn.args.vararg or fn.args.kwarg or fn.args.kwonlyargs \
+                or any(k.arg is None or k.arg not in params[len(call.args):] for k in call.keywords) or len({k.arg for k in call.keywords}) != len(call.keywords):
             bad(call, "unsupported way of calling helper %s" % fn.name)
         vals = [self.expr(a, env, binds) for a in call.args]
+        kw = {k.arg: k.value for k in call.keywords}
         ndef = len(fn.args.defaults)
         for i in range(len(vals), len(params)):
+            if params[i] in kw:
+                vals.append(self.expr(kw[params[i]], env, binds))     # keyword arguments are evaluated after the positional ones, in call order
+                continue
             j = i - (len(params) - ndef)
             if j < 0:
                 bad(call, "missing argument for helper %s" % fn.name)
@@ -146,8 +151,8 @@ class Pure:
         def merged(cenv2):
             e = dict(env)
             for k_, v_ in cenv2.items():
-                if k_.startswith("self."):
-                    e[k_] = v_
+                if k_.startswith("self.") or k_.startswith("#"):
+                    e[k_] = v_          # fields of self, and the translator's own per-run state (keys starting with #)
             return e
 
         def callee_ret(tr, v, cenv2, n):
@@ -575,6 +580,13 @@ class Pure:
                 bad(node, "unpacking of %s" % v.ty)
             if len(vals) != len(target.elts):
                 bad(node, "tuple arity")
+            if any(isinstance(t, ast.Attribute) for t in target.elts):
+                # a, self.x = e1, e2: the right-hand sides are already evaluated (vals); bind them one after the other
+                def chain(i, e):
+                    if i == len(vals):
+                        return cont(e)
+                    return self.assign(target.elts[i], vals[i], e, lambda e2: chain(i + 1, e2), node)
+                return chain(0, env)
             body_env = env
             lets = []
             for t, x in zip(target.elts, vals):
